@@ -95,6 +95,21 @@ def gen(rng, tier):
             ops.append(['connect', p, ns])
         else:
             ops.append(['sdisc', p, ns])
+    if rng.random() < 0.3:
+        # the application kicks a client that went silent, after its ping
+        # has expired but before the reader gave up: engine.io notices
+        # inside the send of the DISCONNECT packet and tears the connection
+        # down re-entrantly; an ACK of that client is still in flight
+        cfg['short_ping'] = True
+        p = rng.randrange(npeers)
+        ns = rng.choice(nss)
+        tag += 1
+        at = rng.randrange(len(ops) // 2, len(ops) + 1)
+        ops[at:at] = [['emit_cb', p, ns, 'G%d' % tag],
+                      ['sdisc_expired', p, ns,
+                       rng.randrange(len(ACK_PAYLOADS)),
+                       rng.choice(['before', 'after'])],
+                      ['open', p]]
     ops.append(['adv', 7.0])
     return {'cfg': cfg, 'ops': ops}
 
@@ -121,6 +136,8 @@ def _run(case, cfg, w):
         bus = SimBus(w, lags=(0.0,))
         mkw['manager'] = (AsyncSimPubSubManager if w.mode == 'async'
                           else SimPubSubManager)(bus, 's')
+    if cfg.get('short_ping'):
+        mkw.update(ping_interval=5, ping_timeout=3)
     srv = w.add_server('s', async_handlers=True,
                        namespaces=list(cfg['nss']), **mkw)
 
@@ -412,6 +429,57 @@ def _run(case, cfg, w):
             sc.forget(p, ns)
             w.api('s', 'disconnect', sid, namespace=ns)
             w.settle()
+            end_sid(sid)
+        elif k == 'sdisc_expired':
+            _, p, ns, pi, when = op
+            sid = sc.sid(p, ns)
+            if not sid or not sc.alive(p):
+                continue
+            pe = sc.peers[p]
+            pe.auto_pong = False          # silent from now on
+            pings0 = pe.pings
+            w.settle()
+            for _ in range(12):
+                if pe.pings > pings0:
+                    break
+                w.advance(1.0)
+            w.advance(3.5)
+            w.rec.count('fault.half_open')
+            w.rec.count('fault.clock_jump')
+            late = [(i, t) for i, t in sorted(outstanding.get(sid, {}).items())
+                    if issued[t]['kind'] == 'emit' and
+                    not contains_bytes(ACK_PAYLOADS[pi])]
+            n_cb = len(cb_log)
+            if late and when == 'before':
+                pe.send_pkt(sio.ACK, ns, late[0][0], ACK_PAYLOADS[pi])
+            seq0 = w.rec.seq
+            w.api('s', 'disconnect', sid, namespace=ns)
+            w.settle()
+            if late and when == 'after':
+                try:
+                    pe.send_pkt(sio.ACK, ns, late[0][0], ACK_PAYLOADS[pi])
+                except Exception:   # noqa  (the pipe may be gone already)
+                    pass
+                w.settle()
+            w.rec.count('fault.ping_timeout_in_disconnect')
+            nontrivial = True
+            ended = [e['seq'] for e in w.rec.events
+                     if e['seq'] > seq0 and e['kind'] == 'op_end' and
+                     tuple(e['op']) == ('disconnect',)]
+            for tg, args, seq in cb_log[n_cb:]:
+                if late and tg == late[0][1] and ended and seq < ended[0] \
+                        and when == 'before':
+                    # acknowledged while the disconnect was still under way
+                    outstanding[sid].pop(late[0][0], None)
+                    expected_cb[tg] = ACK_PAYLOADS[pi]
+                    continue
+                v.add('callback_after_disconnect', '%s: callback %s ran '
+                      'with %s after disconnect(%s) had returned'
+                      % (where, tg, trepr(args), sid))
+            pe.sever(0.0)
+            w.settle()
+            for ns2, sid2 in sc.drop_transport(p):
+                end_sid(sid2)
             end_sid(sid)
         elif k == 'sever':
             p = op[1]
